@@ -824,7 +824,7 @@ public:
           fprintf(stderr,
                   "  sys: task type %d on subgrid %ld (original %d) box lo "
                   "(cells) %.3f %.3f %.3f, buffer dir %d, packet pos (cells) "
-                  "%.6f %.6f %.6f dir %.3f %.3f %.3f tau %.6g\n",
+                  "%.15f %.15f %.15f dir %.3f %.3f %.3f tau %.17g\n",
                   t.type, x, original_of[(size_t)x],
                   (bx[0] - lay.cfg.anchor[0]) / lay.cell[0],
                   (bx[1] - lay.cfg.anchor[1]) / lay.cell[1],
